@@ -304,8 +304,14 @@ func edgeHas(ff *core.FnFacts, a, b *ssa.BasicBlock, pat string) bool {
 	return core.HasFact(set, pat)
 }
 
-// pathFacts unions the edge facts and in-block events along a path.
+// pathFacts unions the edge facts along a path; phi terms are replaced by the
+// term of the value that flows in along this very path (path sensitivity).
 func pathFacts(ff *core.FnFacts, path []*ssa.BasicBlock) core.FactSet {
+	return resolvePathFacts(ff, path, rawPathFacts(ff, path))
+}
+
+// rawPathFacts unions the edge facts along a path without phi resolution.
+func rawPathFacts(ff *core.FnFacts, path []*ssa.BasicBlock) core.FactSet {
 	set := core.FactSet{}
 	for i := 0; i+1 < len(path); i++ {
 		for _, f := range ff.EdgeFacts(path[i], path[i+1]) {
@@ -313,6 +319,48 @@ func pathFacts(ff *core.FnFacts, path []*ssa.BasicBlock) core.FactSet {
 		}
 	}
 	return set
+}
+
+func resolvePathFacts(ff *core.FnFacts, path []*ssa.BasicBlock, set core.FactSet) core.FactSet {
+	// phi resolution
+	type sub struct {
+		from *core.Term
+		to   *core.Term
+	}
+	var subs []sub
+	for _, b := range path {
+		for _, ins := range b.Instrs {
+			phi, ok := ins.(*ssa.Phi)
+			if !ok {
+				continue
+			}
+			pt := ff.TB.Of(phi)
+			if pt.Op != "phi" {
+				continue
+			}
+			rv := resolveOnPath(phi, path)
+			if rv == ssa.Value(phi) {
+				continue
+			}
+			rt := ff.TB.Of(rv)
+			if rt.Op == "phi" {
+				continue
+			}
+			subs = append(subs, sub{pt, rt})
+		}
+	}
+	if len(subs) == 0 {
+		return set
+	}
+	out := core.FactSet{}
+	for _, f := range set {
+		g := f
+		for _, sb := range subs {
+			g = g.Replace(sb.from, sb.to)
+		}
+		out[g.Key()] = g
+	}
+	return out
 }
 
 // requireEachSuccessPath: for a loop-free function, every entry→success-return
@@ -343,8 +391,7 @@ func (r *Run) requireEachSuccessPath(id, why string, f *ssa.Function, ctx core.C
 		ret := p[len(p)-1].Instrs[len(p[len(p)-1].Instrs)-1].(*ssa.Return)
 		if ei >= 0 && isErrorTypeV(ret.Results[ei]) && !isNilConstV(ret.Results[ei]) {
 			// not provably nil: treat a returned call error as failure only when the path says so
-			pf := pathFacts(ff, p)
-			if !couldBeNil(ff, ret.Results[ei], pf) {
+			if !couldBeNil(ff, ret.Results[ei], rawPathFacts(ff, p)) {
 				continue
 			}
 		}
@@ -404,6 +451,11 @@ func couldBeNil(ff *core.FnFacts, v ssa.Value, pf core.FactSet) bool {
 	switch ct.Name {
 	case "errors.New", "fmt.Errorf", "github.com/pkg/errors.New", "github.com/pkg/errors.Errorf":
 		return false
+	case "github.com/pkg/errors.Wrap", "github.com/pkg/errors.Wrapf", "github.com/pkg/errors.WithMessage", "github.com/pkg/errors.WithMessagef", "github.com/pkg/errors.WithStack":
+		// nil iff the wrapped error is nil
+		if call, ok := ct.Val.(*ssa.Call); ok && len(call.Call.Args) > 0 {
+			return couldBeNil(ff, call.Call.Args[0], pf)
+		}
 	}
 	return true
 }
